@@ -579,9 +579,12 @@ func mutateX(r *rng.R, root *xel, class string) int {
 		if len(lv) == 0 || !altX(r, rng.Pick(r, lv)) {
 			return -1
 		}
-		if r.Chance(1, 4) {
+		switch r.Intn(5) {
+		case 0:
 			insert(s.x, i, c)
-		} else {
+		case 1:
+			insert(s.x, len(s.x.kids), c) // after everything decoded in the light of the original
+		default:
 			insert(s.x, i+1, c)
 		}
 		return s.depth
@@ -683,6 +686,115 @@ func mutateX(r *rng.R, root *xel, class string) int {
 	return -1
 }
 
+// nestClasses: what nestX / nestJ apply INSIDE the child structure (see nestM in fix.go).
+var nestClasses = []string{"unk-end", "unk-front", "dup", "dup-alt", "zero", "del", "swap"}
+
+// nestPlace: child i of n >= 2 siblings gets a new place: the front (twice as likely), the end, swapped with a
+// neighbour, before everything that preceded it, or a copy of it put in front.
+func nestPlace[T any](r *rng.R, kids []T, i int, clone func(T) T) []T {
+	n := len(kids)
+	out := append([]T(nil), kids...)
+	mode := r.Intn(6)
+	if mode <= 1 && i == 0 {
+		mode = 2 // already in front
+	}
+	if mode == 2 && i == n-1 {
+		mode = 0
+	}
+	switch mode {
+	case 0, 1: // to the front
+		x := out[i]
+		copy(out[1:i+1], out[:i])
+		out[0] = x
+	case 2: // to the end
+		x := out[i]
+		copy(out[i:], out[i+1:])
+		out[n-1] = x
+	case 3: // swapped with a neighbour
+		if i > 0 {
+			out[i-1], out[i] = out[i], out[i-1]
+		} else {
+			out[0], out[1] = out[1], out[0]
+		}
+	case 4: // what precedes goes after
+		if i > 0 {
+			out = append(append(append([]T{}, kids[i]), kids[:i]...), kids[i+1:]...)
+		} else {
+			x := out[0]
+			copy(out, out[1:])
+			out[n-1] = x
+		}
+	default: // a copy in front
+		out = append([]T{clone(kids[i])}, out...)
+	}
+	return out
+}
+
+func nestX(r *rng.R, root *xel) int {
+	type site struct {
+		s     *xel
+		i     int
+		depth int
+	}
+	var c []site
+	root.walk(0, func(x *xel, d int) {
+		if !x.isStruct() || len(x.kids) < 2 {
+			return
+		}
+		for i, k := range x.kids {
+			if k.isStruct() && len(k.kids) > 0 {
+				c = append(c, site{x, i, d})
+			}
+		}
+	})
+	if len(c) == 0 {
+		return -1
+	}
+	st := rng.Pick(r, c)
+	ok := false
+	for try := 0; try < 6 && !ok; try++ {
+		ok = mutateX(r, st.s.kids[st.i], rng.Pick(r, nestClasses)) >= 0
+	}
+	if !ok {
+		return -1
+	}
+	st.s.kids = nestPlace(r, st.s.kids, st.i, func(x *xel) *xel { return x.clone() })
+	return st.depth
+}
+
+func nestJ(r *rng.R, root *jn) int {
+	type site struct {
+		a     *jn
+		i     int
+		depth int
+	}
+	var c []site
+	root.walkItems(0, func(n *jn, d int) {
+		its := n.items()
+		if its == nil || len(its.arr) < 2 {
+			return
+		}
+		for i, k := range its.arr {
+			if ki := k.items(); ki != nil && len(ki.arr) > 0 {
+				c = append(c, site{its, i, d})
+			}
+		}
+	})
+	if len(c) == 0 {
+		return -1
+	}
+	st := rng.Pick(r, c)
+	ok := false
+	for try := 0; try < 6 && !ok; try++ {
+		ok = mutateJ(r, st.a.arr[st.i], rng.Pick(r, nestClasses)) >= 0
+	}
+	if !ok {
+		return -1
+	}
+	st.a.arr = nestPlace(r, st.a.arr, st.i, func(n *jn) *jn { return n.clone() })
+	return st.depth
+}
+
 var fixXMLClasses = []string{"swap", "move", "dup", "dup-alt", "text", "date-edge", "unk-front", "unk-mid", "unk-end", "del", "zero", "lex", "lex-big", "lex-date", "lex-mask", "attr", "ver-down", "ver-up"}
 
 func fixXMLMutants(ctx *Ctx, s *schema.Schema, tg planTarget, r *rng.R, doc []byte, per int) {
@@ -727,6 +839,12 @@ func fixXMLMutants(ctx *Ctx, s *schema.Schema, tg planTarget, r *rng.R, doc []by
 		}
 		if applied >= 2 {
 			fixCase(ctx, s, tg, 1, "combo", -1, []byte(m.String()))
+		}
+	}
+	for k := 0; k < 2*per; k++ {
+		m := root.clone()
+		if d := nestX(r, m); d >= 0 {
+			fixCase(ctx, s, tg, 1, "nest", d, []byte(m.String()))
 		}
 	}
 }
@@ -1320,9 +1438,12 @@ func mutateJ(r *rng.R, root *jn, class string) int {
 		if len(lv) == 0 || !altJ(r, rng.Pick(r, lv)) {
 			return -1
 		}
-		if r.Chance(1, 4) {
+		switch r.Intn(5) {
+		case 0:
 			insert(a, i, c)
-		} else {
+		case 1:
+			insert(a, len(a.arr), c) // after everything decoded in the light of the original
+		default:
 			insert(a, i+1, c)
 		}
 		return s.depth
@@ -1468,6 +1589,12 @@ func fixJSONMutants(ctx *Ctx, s *schema.Schema, tg planTarget, r *rng.R, doc []b
 		}
 		if applied >= 2 {
 			fixCase(ctx, s, tg, 2, "combo", -1, []byte(m.String()))
+		}
+	}
+	for k := 0; k < 2*per; k++ {
+		m := root.clone()
+		if d := nestJ(r, m); d >= 0 {
+			fixCase(ctx, s, tg, 2, "nest", d, []byte(m.String()))
 		}
 	}
 }
